@@ -45,6 +45,22 @@ func TestCheck(t *testing.T) {
 		kind := kinds[r.IntN(3)]
 		spec := limgen.Gen(r, kind, limgen.Opts{NoProbe: true})
 		pre := genPrefix(r, r.IntN(120))
+		atMax := r.IntN(8) == 0
+		if atMax {
+			// an estimate sitting exactly at its maximum (initial == max, history of app-limited samples that leave it alone):
+			// the clamp makes "grow" a no-op there, which must not come out lower than the no-op of a slower sample
+			spec.Initial = spec.Max
+			if kind == "vegas" && r.IntN(2) == 0 {
+				spec.Max = 2 + r.IntN(40)
+				spec.Initial = spec.Max
+			}
+			b0 := int64(1) << uint(4+r.IntN(24))
+			pre = []limgen.Sample{{RTT: b0, InFlight: spec.Initial}}
+			for i := r.IntN(4); i > 0; i-- {
+				pre = append(pre, limgen.Sample{RTT: b0 + r.Int64N(b0), InFlight: 0})
+			}
+			rt.Count("pairs_from_an_estimate_exactly_at_its_maximum", 1)
+		}
 		seed := int64(r.Uint64() >> 1)
 		build := func() core.Limit {
 			mrand.Seed(seed)
@@ -97,6 +113,10 @@ func TestCheck(t *testing.T) {
 		if hi > 1<<41 || lo > 1<<40 {
 			rt.Count("skipped_rtt_too_large", 1)
 			return
+		}
+		if atMax {
+			lo = base
+			hi = lo + lo*int64(1+r.IntN(40))/8
 		}
 		inflight := before
 		switch r.IntN(4) {
